@@ -116,7 +116,10 @@ func (n *CocagoParser) Visitor(f *ast.File, fset *token.FileSet, fileName string
 			currentStruct.NodeName = x.Name.Name
 			currentStruct.Package = currentFile.PackageName
 			//currentStruct.FilePath = BuildImportName(fileName)
-			dsMap[currentStruct.NodeName] = &currentStruct
+			// every type declaration gets its own value: storing &currentStruct made all entries of
+			// dsMap alias the one variable, so a file with several types listed the last one n times
+			declared := currentStruct
+			dsMap[currentStruct.NodeName] = &declared
 		case *ast.StructType:
 			AddStructType(currentStruct.NodeName, x, &currentFile, dsMap)
 		case *ast.FuncDecl:
